@@ -4,7 +4,8 @@ Confirms (in the agent's worktree /tmp/ref-<PID>) that each patch applies and bo
 /verif/benign/<PID>-<k>/ and records which checks (if any) raise an alarm on it — every alarm here is a false alarm of ours."""
 import json, os, subprocess, sys, shutil, tempfile, re, glob
 pid = sys.argv[1]
-wt = "/tmp/ref-%s" % pid
+ROUND2 = "--round2" in sys.argv          # held-out second corpus: worktree /tmp/ref2-<PID>, stored under benign2/
+wt = ("/tmp/ref2-%s" if ROUND2 else "/tmp/ref-%s") % pid
 env = dict(os.environ, CARGO_TARGET_DIR=wt + "/target", CARGO_NET_OFFLINE="true")
 
 
@@ -15,7 +16,7 @@ def sh(cmd, **kw):
 
 for sd in sorted(glob.glob(os.path.join(wt, "ref[0-9]"))):
     k = sd[-1]
-    out = "/verif/benign/%s-%s" % (pid, k)
+    out = "/verif/%s/%s-%s" % ("benign2" if ROUND2 else "benign", pid, k)
     res = {}
     sh("git checkout -- . ; git clean -fdq -e 'ref*' -e target")
     rc, o = sh("git apply %s/patch.diff" % sd)
